@@ -15,11 +15,11 @@ import (
 // ---------- G-VERSION ----------
 
 type GenVersion struct {
-	Text    string `json:"text"`    // the version string as written in the config
-	IsSem   bool   `json:"is_sem"`  // parses as a (lenient) semantic version by construction
-	Core    string `json:"core"`    // expected major.minor.patch
-	Pre     string `json:"pre"`     // prerelease part embedded in Text
-	Meta    string `json:"meta"`    // metadata part embedded in Text
+	Text    string `json:"text"`   // the version string as written in the config
+	IsSem   bool   `json:"is_sem"` // parses as a (lenient) semantic version by construction
+	Core    string `json:"core"`   // expected major.minor.patch
+	Pre     string `json:"pre"`    // prerelease part embedded in Text
+	Meta    string `json:"meta"`   // metadata part embedded in Text
 	NearHow string `json:"near,omitempty"`
 }
 
